@@ -62,7 +62,13 @@ QE_FILE = "qe_errors.csv"
 # ------------------------------------------------------------------------------------------------
 # configuration: every stochastic feature multi-valued
 # ------------------------------------------------------------------------------------------------
-def c12_config(rng, ndays, n_sites, n_sims, four=True, keep_all=True, start=None):
+# tags of harness/wholerun's "wide" catalogue that matter for C12: everything that changes how many random numbers a
+# task consumes or what runs in the parent between tasks (sampled repair costs/delays, sampled travel times and the
+# workday that bounds them, crews, follow-up rules, weather envelopes, cost blocks, per-program economics, n_sims)
+WIDE_TAGS = ["sims", "crews", "followup", "weather", "cost", "repairs", "workday", "economics"]
+
+
+def c12_config(rng, ndays, n_sites, n_sims, four=True, keep_all=True, start=None, wide=None):
     # start early enough in the year that the run stays inside one calendar year (make_config truncates
     # runs that would end in a trailing partial year, finding recorded under C06)
     # `start` given: boundary periods chosen on purpose (leap day inside, ending on Dec 31 = day-of-year 366, 1-2 days)
@@ -116,6 +122,21 @@ def c12_config(rng, ndays, n_sites, n_sims, four=True, keep_all=True, start=None
         st_["id"] = i_
     rng.shuffle(cfg["sites"])
     cfg["keep_all"] = keep_all
+    if wide:
+        # applied LAST (after this generator's own overrides and the extra methods AIR_L), from the derived generator
+        # of wholerun.apply_wide; every applied leaf is recorded in cfg["wide_applied"] and written by materialize
+        keep_sims = cfg["n_sims"]
+        # the catalogue is built from cfg["methods"]: offer it only the methods some program of this configuration uses
+        all_methods = cfg["methods"]
+        used = [x for p_ in cfg["programs"] for x in p_["methods"]]
+        cfg["methods"] = {k: v for k, v in all_methods.items() if k in used}
+        try:
+            W.apply_wide(cfg, wide)
+        finally:
+            cfg["methods"] = all_methods
+        if keep_sims >= 6:
+            cfg["n_sims"] = keep_sims   # the batch-boundary configuration keeps its two batches
+            cfg["wide_applied"] = [a for a in cfg["wide_applied"] if a["path"][-1] != "n_sims"]
     cfg["extra_inputs"] = {QE_FILE: "err\n" + "\n".join(str(x) for x in (-50, -25, 0, 25, 50, 100)) + "\n"}
     return cfg
 
@@ -431,6 +452,12 @@ def differential(ctx, cfg, tables, repo=None, label="cfg", planned=None):
     if shared_later:
         ctx.nontrivial.add("shared-method-label")
         ctx.count("configs_with_shared_method_label")
+    wa = cfg.get("wide_applied") or []
+    if wa:
+        ctx.count("wide_configurations")
+        for a in wa:
+            ctx.count(f"wide:{a['tag']}")
+            ctx.nontrivial.add("wide:" + a["tag"] + ":" + ".".join(str(x) for x in a["path"][-2:]))
     root = tempfile.mkdtemp(prefix="ldarverif_c12_")
     results = []
     try:
@@ -538,6 +565,8 @@ def differential(ctx, cfg, tables, repo=None, label="cfg", planned=None):
                             {"cfg": cfg, "schedule_a": it[2], "schedule_b": it[2], "relation": "same", "first_difference": d})
         ctx.sample({"config": label, "programs": progs, "ndays": (W.date(*cfg["end"]) - W.date(*cfg["start"])).days + 1,
                     "n_sims": cfg["n_sims"], "features": feat,
+                    "wide_applied": [[a["tag"], ".".join(str(x) for x in a["path"][1:]), a["value"] if not isinstance(a["value"], dict) else "<block>"]
+                                     for a in wa],
                     "schedules": [sched_str(s) for (_, _, s, _) in results],
                     "differences": [[lab, d["file"]] for (lab, _, _, d) in results if d]})
     finally:
@@ -891,18 +920,20 @@ def table_stage(ctx, repo=None):
 
 
 def config_plan(ctx):
-    """(ndays, n_sites, n_sims, five programs incl. P_fix?, keep all program outputs?, start date or None)
+    """(ndays, n_sites, n_sims, programs variant, keep all program outputs?, start date or None, wide)
     boundary periods are put in on purpose: a leap day inside, a period ending on Dec 31 of a leap year (day-of-year
-    366), periods not starting on Jan 1, 1- and 2-day periods (New Year's Eve, Feb 28/29)"""
+    366), periods not starting on Jan 1, 1- and 2-day periods (New Year's Eve, Feb 28/29).
+    wide: None | WIDE_TAGS (1-3 leaves of wholerun's wide catalogue with the tags relevant here) | True (all tags)"""
+    T = WIDE_TAGS
     if ctx.quick:
         # third configuration: two batches of simulations (n_sims = 6) with keep_all False - the merge of the
         # summary files across batches and the clearing of program outputs run in the parent between tasks
-        return [(100, 5, 1, True, True, [2024, 2, 1]), (85, 5, 2, False, True, [2024, 10, 8]), (40, 4, 6, "three", False, None),
-                (2, 4, 1, False, True, [2024, 2, 28])]
-    return [(180, 7, 2, True, True, None), (160, 6, 1, True, True, [2024, 1, 15]), (130, 6, 2, False, True, None),
-            (150, 6, 3, False, True, [2024, 6, 15]), (100, 5, 1, True, True, None), (80, 5, 6, "three", True, None),
-            (80, 4, 7, "three", False, None), (100, 5, 5, True, True, None),
-            (1, 4, 2, True, True, [2024, 12, 31]), (2, 4, 1, False, True, [2024, 12, 30]), (2, 4, 2, True, True, [2023, 2, 28])]
+        return [(90, 5, 1, True, True, [2024, 2, 1], T), (75, 5, 2, False, True, [2024, 10, 18], True),
+                (35, 4, 6, "three", False, None, T), (2, 4, 1, False, True, [2024, 2, 28], None)]
+    return [(180, 7, 2, True, True, None, T), (160, 6, 1, True, True, [2024, 1, 15], True), (130, 6, 2, False, True, None, T),
+            (150, 6, 3, False, True, [2024, 6, 15], T), (100, 5, 1, True, True, None, True), (80, 5, 6, "three", True, None, T),
+            (80, 4, 7, "three", False, None, T), (100, 5, 5, True, True, None, T), (90, 5, 1, False, True, None, None),
+            (1, 4, 2, True, True, [2024, 12, 31], None), (2, 4, 1, False, True, [2024, 12, 30], T), (2, 4, 2, True, True, [2023, 2, 28], None)]
 
 
 def run(ctx):
@@ -945,8 +976,8 @@ def run(ctx):
     # everything random is drawn here, in the main thread; the runs then go concurrently (own folders, own
     # sub-context each) and are merged in a fixed order
     todo = []
-    for i, (ndays, n_sites, n_sims, four, keep_all, start) in enumerate(config_plan(ctx)):
-        cfg = c12_config(ctx.rng, ndays, n_sites, n_sims, four, keep_all, start)
+    for i, (ndays, n_sites, n_sims, four, keep_all, start, wide) in enumerate(config_plan(ctx)):
+        cfg = c12_config(ctx.rng, ndays, n_sites, n_sims, four, keep_all, start, wide)
         todo.append((f"cfg{i}", cfg, make_plan(ctx, cfg), core.Ctx(ctx.prop, ctx.tier, ctx.seed)))
     with ThreadPoolExecutor(max_workers=ctx.pick(4, 3)) as cex, ThreadPoolExecutor(max_workers=1) as hex_:
         hist_jobs = [hex_.submit(history_run, a, b, repo) for a, b in hist_cfgs]
